@@ -88,10 +88,11 @@ def make_cfg(base_cfg, overrides, out_path, invariants=None, extra_lines=()):
     """Copy spec/<base_cfg>, replacing `NAME = value` constant lines by overrides."""
     text = open(os.path.join(SPEC, base_cfg)).read()
     for k, v in overrides.items():
-        pat = re.compile(r"^(\s*)" + re.escape(k) + r"\s*=.*$", re.M)
+        pat = re.compile(r"^(\s*)" + re.escape(k) + r"\s*(=|<-).*$", re.M)
         if not pat.search(text):
             raise ToolError(f"constant {k} not in {base_cfg}")
-        text = pat.sub(lambda m: f"{m.group(1)}{k} = {v}", text)
+        rhs = v if isinstance(v, str) and v.startswith("<-") else f"= {v}"
+        text = pat.sub(lambda m: f"{m.group(1)}{k} {rhs}", text)
     if invariants is not None:
         text = re.sub(r"^INVARIANTS?.*$", "INVARIANTS " + " ".join(invariants), text, flags=re.M)
     for l in extra_lines:
